@@ -209,6 +209,10 @@ extern int cs_recipe(cs_scenario *sc, int recipe, int ev, int av, int pv,
  */
 extern int cs_identifiable(const cs_scenario *sc, unsigned mask,
 	long double *margin, int *equations, int *unknowns);
+/* set by the last cs_identifiable call: equations summed over all systems,
+   and unknown error terms of all systems plus the unknown standard
+   parameters used by the selected standards */
+extern int cs_last_eq_total, cs_last_unknown_total;
 
 /* textual description for samples / replays */
 extern void cs_describe(const cs_scenario *sc, char *buf, size_t n);
